@@ -1,0 +1,7 @@
+//go:build verif && !amd64
+// +build verif,!amd64
+
+package gf2p16
+
+// VerifSetPortable is a no-op where only the portable kernels exist.
+func VerifSetPortable(on bool) bool { return true }
